@@ -49,6 +49,25 @@ def parse_history(h):
     return out
 
 
+def collapse_sum(tree):
+    """ a leg produced by yastn.block ('s' node) cannot be unfused: in the abstract view it is a native leg (the direct sum of the blocked spaces) """
+    out, i = [], 0
+    while i < len(tree):
+        k, mode = tree[i]
+        if mode == 's':
+            # skip the whole subtree
+            need, j = k, i + 1
+            while need > 0:
+                need += tree[j][0] - 1
+                j += 1
+            out.append([0, 'o'])
+            i = j
+        else:
+            out.append([k, mode])
+            i += 1
+    return out
+
+
 def _gint(x):
     re, im = float(np.real(x)), float(np.imag(x))
     if abs(re - round(re)) > 1e-9 or abs(im - round(im)) > 1e-9:
@@ -113,7 +132,7 @@ def alpha(a, sym, views=True, noent=False):
     raw = {'s': list(st.s), 'n': list(st.n), 't': [[list(t[k * nsym:(k + 1) * nsym]) for k in range(nl)] for t in st.t],
            'D': [list(D) for D in st.D], 'size': int(st.size), 'dg': bool(a.isdiag), 'cons': cons}
     try:
-        grp = [parse_history(a.get_legs(i).history()) for i in range(a.ndim)]
+        grp = [collapse_sum(parse_history(a.get_legs(i).history())) for i in range(a.ndim)]
         b = fully_unfused(a)
         legs = [b.get_legs(i) for i in range(b.ndim)]
     except Machinery:
@@ -481,9 +500,12 @@ def apply_op(op, regs):
     from yastn import YastnError
     a = regs[op['a']]
     k = op['op']
-    if a is None or any(regs[op[x]] is None for x in ('b', 'c') if x in op):
+    if a is None or any(regs[op[x]] is None for x in ('b', 'c') if x in op) or any(regs[i] is None for i in op.get('ts', [])):
         return 'operand missing (an earlier step failed in this execution)', None
     try:
+        if k == 'block':
+            blocked = [n for n in range(len(op['pos'][0])) if n not in op['common']]
+            return 'ok', yastn.block({tuple(p[n] for n in blocked): regs[i] for i, p in zip(op['ts'], op['pos'])}, common_legs=tuple(op['common']) if op['common'] else None)
         if k == 'lincomb':
             x, y = complex(*op['amp'][0]), complex(*op['amp'][1])
             b = regs[op['b']]
@@ -561,6 +583,8 @@ def apply_op(op, regs):
 def event_of(op, out, res, sym, nreg_map):
     e = {k: v for k, v in op.items()}
     e['a'] = op['a'] + 1
+    if 'ts' in op:
+        e['ts'] = [i + 1 for i in op['ts']]
     if 'b' in op:
         e['b'] = op['b'] + 1
     if 'c' in op:
